@@ -12,7 +12,9 @@
 (***************************************************************************)
 EXTENDS Integers, Sequences, FiniteSets, TLC, Json
 
-CONSTANTS MaxOps, EmitOn
+CONSTANTS MaxOps, EmitOn,
+          Focus      \* "all", or "streams": only the voltage-side alphabet on one stream and one background (every sequence
+                     \* of add_noise / user source / update_noise is enumerated on every quick run)
 
 VARIABLES geo,      \* [dfdt10 : ten times df*dt (so tenths are representable), T, dt2 : twice the time resolution]
           est,      \* <<"zero">> | <<"param", kind, mean, std>> | <<"estimated">>
@@ -32,20 +34,24 @@ Kinds == {"chi2", "gaussian", "truncated"}
 Means == {10, 25}
 Stds == {2, 5}
 
-Init == /\ geo \in [dfdt10 : {10, 14, 15, 16, 20, 25, 27, 510}, T : {4, 16}, dt2 : {2, 3, 4}]
+Init == /\ geo \in (IF Focus = "streams" THEN [dfdt10 : {10}, T : {4}, dt2 : {2}]
+                      ELSE [dfdt10 : {10, 14, 15, 16, 20, 25, 27, 510}, T : {4, 16}, dt2 : {2, 3, 4}])
         /\ est = <<"zero">> /\ content = "empty"
         /\ own = [a \in 1..2 |-> [p \in 1..2 |-> 0]] /\ bg = [p \in 1..2 |-> 0]
         /\ xown = [a \in 1..2 |-> [p \in 1..2 |-> 0]] /\ xbg = [p \in 1..2 |-> 0]
         /\ hist = <<>>
 
 Active == Len(hist) < MaxOps
+All == Focus = "all"
+(* the small alphabet of Focus = "streams": one own stream (antenna 1, pol 1) and one background (pol 1), one value each *)
+InFocus(a, p, s, s0) == All \/ (a = 1 /\ p = 1 /\ s = s0)
 Log(a) == hist' = Append(hist, [act |-> a, est |-> est', content |-> content', own |-> own', bg |-> bg',
                                 xown |-> xown', xbg |-> xbg',
                                 total |-> [x \in 1..2 |-> [p \in 1..2 |-> own'[x][p] + bg'[p]]]])
 
 (* the first noise on an empty (zero-estimate) frame sets the estimates to the requested parameters, otherwise re-estimate *)
 NoiseStep(kind, m, s, src) ==
-    /\ Active
+    /\ All /\ Active
     /\ est' = IF est = <<"zero">> THEN <<"param", kind, m, s>> ELSE <<"estimated">>
     /\ content' = IF content = "empty" THEN "noise" ELSE content
     /\ UNCHANGED <<geo, own, bg, xown, xbg>>
@@ -54,7 +60,7 @@ NoiseStep(kind, m, s, src) ==
 AddNoise(kind, m, s) == NoiseStep(kind, m, s, "AddNoise")
 (* from tables: the parameters are a row of the tables (shared index) or entries of them; identity tables in the adapter *)
 AddNoiseFromObs(kind, share, tables) ==
-    /\ Active
+    /\ All /\ Active
     /\ est' = IF est = <<"zero">> THEN <<"param", kind, -1, -1>> ELSE <<"estimated">>      \* -1: whatever the tables gave
     /\ content' = IF content = "empty" THEN "noise" ELSE content
     /\ UNCHANGED <<geo, own, bg, xown, xbg>>
@@ -62,32 +68,32 @@ AddNoiseFromObs(kind, share, tables) ==
 
 (* tables of different lengths with a shared index: refused (IndexError), nothing changes -- data, estimates, generator *)
 AddNoiseFromObsRefused(which) ==
-    /\ Active /\ UNCHANGED <<geo, est, content, own, bg, xown, xbg>>
+    /\ All /\ Active /\ UNCHANGED <<geo, est, content, own, bg, xown, xbg>>
     /\ Log([name |-> "AddNoiseFromObsRefused", which |-> which])
 
-ZeroData == /\ Active /\ est' = <<"zero">> /\ content' = "empty" /\ UNCHANGED <<geo, own, bg, xown, xbg>> /\ Log([name |-> "ZeroData"])
-AddSignal == /\ Active /\ est' = est /\ content' = (IF content = "empty" THEN "mixed" ELSE content)
+ZeroData == /\ All /\ Active /\ est' = <<"zero">> /\ content' = "empty" /\ UNCHANGED <<geo, own, bg, xown, xbg>> /\ Log([name |-> "ZeroData"])
+AddSignal == /\ All /\ Active /\ est' = est /\ content' = (IF content = "empty" THEN "mixed" ELSE content)
              /\ UNCHANGED <<geo, own, bg, xown, xbg>> /\ Log([name |-> "AddSignal"])
 (* intensity(snr) = snr * noise_std / sqrt(T) and its inverse: queries *)
-QuerySnr == /\ Active /\ UNCHANGED <<geo, est, content, own, bg, xown, xbg>> /\ Log([name |-> "QuerySnr", snr |-> 30])
+QuerySnr == /\ All /\ Active /\ UNCHANGED <<geo, est, content, own, bg, xown, xbg>> /\ Log([name |-> "QuerySnr", snr |-> 30])
 
 (* voltage side *)
-StreamAddNoise(a, p, s) == /\ Active /\ own' = [own EXCEPT ![a][p] = @ + s * s] /\ UNCHANGED <<geo, est, content, bg, xown, xbg>>
+StreamAddNoise(a, p, s) == /\ InFocus(a, p, s, 3) /\ Active /\ own' = [own EXCEPT ![a][p] = @ + s * s] /\ UNCHANGED <<geo, est, content, bg, xown, xbg>>
                            /\ Log([name |-> "StreamAddNoise", a |-> a, p |-> p, std |-> s])
-BgAddNoise(p, s) == /\ Active /\ bg' = [bg EXCEPT ![p] = @ + s * s] /\ UNCHANGED <<geo, est, content, own, xown, xbg>>
+BgAddNoise(p, s) == /\ InFocus(1, p, s, 4) /\ Active /\ bg' = [bg EXCEPT ![p] = @ + s * s] /\ UNCHANGED <<geo, est, content, own, xown, xbg>>
                     /\ Log([name |-> "BgAddNoise", p |-> p, std |-> s])
 
 (* a user-defined source (std s) is not book-kept; update_noise() re-estimates the deviation from samples, after which
    further add_noise calls add in quadrature to the refreshed value *)
-StreamAddSource(a, p, s) == /\ Active /\ xown' = [xown EXCEPT ![a][p] = @ + s * s] /\ UNCHANGED <<geo, est, content, own, bg, xbg>>
+StreamAddSource(a, p, s) == /\ InFocus(a, p, s, 6) /\ Active /\ xown' = [xown EXCEPT ![a][p] = @ + s * s] /\ UNCHANGED <<geo, est, content, own, bg, xbg>>
                             /\ Log([name |-> "StreamAddSource", a |-> a, p |-> p, std |-> s])
-StreamUpdateNoise(a, p) == /\ Active /\ own[a][p] + xown[a][p] > 0
+StreamUpdateNoise(a, p) == /\ InFocus(a, p, 0, 0) /\ Active /\ own[a][p] + xown[a][p] > 0
                            /\ own' = [own EXCEPT ![a][p] = @ + xown[a][p]] /\ xown' = [xown EXCEPT ![a][p] = 0]
                            /\ UNCHANGED <<geo, est, content, bg, xbg>>
                            /\ Log([name |-> "StreamUpdateNoise", a |-> a, p |-> p])
-BgAddSource(p, s) == /\ Active /\ xbg' = [xbg EXCEPT ![p] = @ + s * s] /\ UNCHANGED <<geo, est, content, own, bg, xown>>
+BgAddSource(p, s) == /\ InFocus(1, p, s, 2) /\ Active /\ xbg' = [xbg EXCEPT ![p] = @ + s * s] /\ UNCHANGED <<geo, est, content, own, bg, xown>>
                      /\ Log([name |-> "BgAddSource", p |-> p, std |-> s])
-BgUpdateNoise(p) == /\ Active /\ bg[p] + xbg[p] > 0
+BgUpdateNoise(p) == /\ InFocus(1, p, 0, 0) /\ Active /\ bg[p] + xbg[p] > 0
                     /\ bg' = [bg EXCEPT ![p] = @ + xbg[p]] /\ xbg' = [xbg EXCEPT ![p] = 0]
                     /\ UNCHANGED <<geo, est, content, own, xown>>
                     /\ Log([name |-> "BgUpdateNoise", p |-> p])
